@@ -3,6 +3,8 @@
 package http2
 
 import (
+	"sync/atomic"
+
 	"github.com/valyala/fasthttp"
 )
 
@@ -120,7 +122,7 @@ func VerifPushPromise(pp *PushPromise) (stream uint32, ended bool, header []byte
 }
 
 // VerifCtxStreamID returns the stream a client request went out on.
-func VerifCtxStreamID(ctx *Ctx) uint32 { return ctx.streamID }
+func VerifCtxStreamID(ctx *Ctx) uint32 { return atomic.LoadUint32(&ctx.streamID) }
 
 // VerifNewCtx builds a client request context the way RoundTrip does.
 func VerifNewCtx(req *fasthttp.Request, res *fasthttp.Response) *Ctx {
